@@ -63,6 +63,24 @@ CLAIMED["C06"] = dict(
     text="Seeded search over command histories with snapshots and restarts at seed-chosen points on both storage back-ends; every aggregate type is rebuilt from the same stored bytes in two further ways and compared field by field with the live state (two wall-clock fields masked), replays run under catch_unwind.",
     design_ref="DESIGN.md §5 C06",
 )
+CLAIMED["C08"] = dict(
+    category="fault_enumeration",
+    technique="deterministic simulation with fault injection: per (operation, reached state) pair every storage and file-system mutation is cut by a crash and by an I/O error; restart from the surviving directory; fault-free twin as oracle",
+    text="Seeded choice of (operation, state) pairs; within a pair the cut points (mutations of the key-value store and the file system, recorded by a counting run) are enumerated completely up to 24 and sampled beyond, each as process crash (unwind, restart from disk) and as a failing write. Loading of every entity, audit log / state / object set agreement and validity of the published tree are checked right after the cut, equality with the fault-free twin after the recovery procedure.",
+    design_ref="DESIGN.md §5 C08",
+)
+CLAIMED["C09"] = dict(
+    category="fault_enumeration",
+    technique="deterministic simulation with fault injection: crash before every mutation of an operation and its background tasks, restart, run all due tasks, direct follow-up oracle; plus the real TaskQueue against a reference model under seeded operation/restart sequences",
+    text="Crash points are enumerated per (operation, state) pair like for C08 (including every instant at which a task is pending or exactly one is running); after restart the queue is inspected (nothing left running, recurring tasks queued) and the effects of the follow-ups are checked directly (object sets at the repository, served files equal content, no unsent requests, no key in use at a parent that its child dropped). The queue primitive itself is explored against a reference model.",
+    design_ref="DESIGN.md §5 C09",
+)
+CLAIMED["C11"] = dict(
+    category="exploration",
+    technique="deterministic simulation: simulated RRDP/rsync client population that remembers every serial, evaluated after every operation and every single background task; file-system cut points (crash, I/O error, torn write) in the repository writer",
+    text="Seeded search over publication histories, retention configurations, session resets and restarts; the served files are parsed with the rpki RRDP parser after every step and every remembered serial is replayed through the offered delta chain. The cut-point part enumerates the file-system mutations of an update (crash / error / torn write) and checks the served files right after the cut, after background recovery and after a later publication.",
+    design_ref="DESIGN.md §5 C11",
+)
 PENDING = {}
 
 def main():
